@@ -13,13 +13,15 @@ Notation Fl := (F O).
 Inductive gcase :=
 | CHist (bounds : list Fl) (ops : list (hop O))
 | CDist (fixed san : bool) (global : option (list Fl)) (name : list N) (ovs : list (override O))
-| CRoll (n dur : N) (ops : list (rop O)).
+| CRoll (n dur : N) (ops : list (rop O))
+| CQuant (q : Fl) (fc fd : list N).             (* fc, fd: Display renderings of clamped, clamped*100 (oracle) *)
 
 Inductive gout :=
 | OHistNone                                              (* Histogram::new returned None *)
 | OHist (bounds : list Fl) (snaps : list (hsnap O))      (* bounds echoed by buckets(); one snapshot per op *)
 | ODist (ty : bool) (d : option (list Fl))               (* get_distribution_type = "histogram"; get_distribution *)
 | ORoll (l : list (rout O))
+| OQuant (v : Fl) (label fc fd : list N)                 (* value(), label(), and the two renderings *)
 | OPanic.
 
 Definition grun_case (c : gcase) : gout :=
@@ -33,6 +35,7 @@ Definition grun_case (c : gcase) : gout :=
       let key := if san then sanitize_name name else name in
       ODist (get_distribution_type O d key) (get_distribution O d key)
   | CRoll n dur ops => ORoll (rrun O (rs_new O n dur) ops)
+  | CQuant q fc fd => let '(v, l) := qnew O q fc fd in OQuant v l fc fd
   end.
 
 Definition fl_list_same (a b : list Fl) : bool := list_eqb (fsame O) a b.
@@ -66,6 +69,7 @@ Definition gout_eqb (a b : gout) : bool :=
   | OHist b1 s1, OHist b2 s2 => fl_list_same b1 b2 && list_eqb hsnap_same s1 s2
   | ODist t1 d1, ODist t2 d2 => Bool.eqb t1 t2 && optb_same d1 d2
   | ORoll l1, ORoll l2 => list_eqb rout_same l1 l2
+  | OQuant v1 l1 c1 d1, OQuant v2 l2 c2 d2 => fsame O v1 v2 && str_eqb l1 l2 && str_eqb c1 c2 && str_eqb d1 d2
   | _, _ => false
   end.
 
@@ -79,6 +83,7 @@ Definition gspec_ok (c : gcase) (o : gout) : bool :=
       optb_same d (spec_choice O san global name ovs)
       && Bool.eqb ty (match d with Some _ => true | None => false end)
   | CRoll n dur ops, ORoll l => rspec_run O n dur (rspec0 O) ops l
+  | CQuant q _ _, OQuant v label _ fd => quant_ok O (fzero O) (fone q) q v label fd
   | _, _ => false
   end.
 
